@@ -9,6 +9,7 @@ void dump_more_riscv();
 void dump_more_symbols();
 void dump_more_det();
 void dump_more_util();
+void dump_more_macro();
 static void dump_more()
 {
   dump_more_cond();
@@ -18,5 +19,6 @@ static void dump_more()
   dump_more_symbols();
   dump_more_det();
   dump_more_util();
+  dump_more_macro();
 }
 #endif
